@@ -19,10 +19,10 @@ import vlib
 from vlib import cfg, MV
 
 MANIFEST = dict(
-    technique='TLA+ closed data-phase model (TLC: stall reachable only via the lost window update) + fault enumeration on two real stacks: every single dropped frame of the exchange and (seeded / all) pairs, all shutdown orders, zero-window histories; traces validated by TLC against the C02 clauses of TraceTcp, stalls decided from quiescent STATES',
+    technique='TLA+ closed data-phase model (TLC: stall reachable only via the lost window update) and closed model of the closing exchange TcpClose (no TIME-WAIT, forgotten connections reset, lazy readers, orderly Close: safety exhaustive, liveness under fairness; with the pre-fix behaviour it reaches F26) + fault enumeration on two real stacks: every single dropped frame of the exchange and (seeded / all) pairs, all shutdown orders, zero-window histories; traces validated by TLC against the C02 clauses of TraceTcp, stalls decided from quiescent STATES',
     text='For the reference exchanges (handshake, 2 data segments + FIN each way; half-close then data; one-sided and simultaneous close; a closed receive window with a late reader) every single frame and pairs of frames are dropped by the wire. TLC checks on each trace: EOS only after the FIN and all data; FIN placement; completion (everything written before shutdown delivered, then EOS); loss-free close leaves both endpoints closed without error; and a quiescent state with data or a FIN owed is rejected as a silent stall. Finding F1 (no zero-window probe) is matched by shape.',
     design='5 C02',
-    note='Liveness is judged from quiescent states and from completion within a generous deadline (scenarios that hit the deadline with timers still armed are counted as undecided, not as violations). Close() (as opposed to Shutdown) is exercised only in scenarios where an explicit error is an allowed outcome. The FIN exchange itself is not in the exhaustive TLC model (data phase only).')
+    note='Liveness is judged from quiescent states (an armed retransmission timer that is overdue by more than 2 s with an idle protocol goroutine counts as dead) and from completion within a generous deadline; traces cut off by the deadline are still judged against every safety clause. Orderly Close() after EOS is exercised in all close orders with each packet of the exchange lost (F26 replay included); abortive closes only where an explicit error is an allowed outcome. TcpClose abstracts data to units, windows and congestion control away, and its timer never fires spuriously.')
 
 SPEC = ['tcp']
 KINDS = ['syn', 'synack', 'ack', 'data', 'fin']
@@ -56,6 +56,21 @@ def run(ctx):
     c2 = cfg(constants=dict(N=3, Buf=2, MaxDrop=1, MaxDup=0, MaxRto=1), invariants=['NoSilentStall'], view='View')
     r2 = ctx.tlc('TcpData', c2, SPEC, name='TcpData-f1', count=False)
     ctx.extra['model_reaches_f1'] = (not r2.ok)
+    # ---- E1: the closing exchange (TcpClose: no TIME-WAIT, forgotten connections answer with RST, ignored segments after the
+    #      goroutine exited, lazy readers, orderly Close): safety exhaustively, liveness under weak fairness on the small config
+    th = ctx.thorough()
+    cc = dict(W=2 if th else 1, MaxDrop=2 if th else 1, MaxRetx=3 if th else 2, RstClosesInLastAck=True)
+    ctx.tlc('TcpClose', cfg(constants=cc, invariants=['EosOK', 'OrderlyCloseSeesEos', 'CleanWithoutLoss']), SPEC, name='TcpClose-safety',
+            must_pass=True, timeout=3000)
+    ctx.tlc('TcpClose', cfg(spec='FairSpec', constants=dict(W=1, MaxDrop=1, MaxRetx=2, RstClosesInLastAck=True), properties=['EventuallyEnd']), SPEC,
+            name='TcpClose-liveness', must_pass=True, timeout=3000)
+    # the behaviour of the pinned tree (before fix F26): the model must reach the reset-instead-of-EOS state; its counterexample
+    # is the 'close-order ... lost-ack2' scenario family below (replayed on the real stacks on every run)
+    r26 = ctx.tlc('TcpClose', cfg(constants=dict(W=1, MaxDrop=1, MaxRetx=2, RstClosesInLastAck=False), invariants=['OrderlyCloseSeesEos', 'CleanWithoutLoss']), SPEC,
+                  name='TcpClose-pinned', count=False)
+    ctx.extra['model_reaches_f26_without_fix'] = (not r26.ok)
+    if r26.ok:
+        raise vlib.Inconclusive('TcpClose with RstClosesInLastAck=FALSE does not reach the F26 state: the model lost its teeth')
     # ---- reference runs (no faults) to learn how many frames of each kind each exchange has
     refs = ref_scenarios()
     rsc = []
